@@ -177,8 +177,23 @@ def r1(ctx):
             ctx.bad(construct, 'roundtrip', '; '.join(probs), wfi.loc(), {'template': template, 'name': name})
         else:
             ctx.ok(construct, f'"{name}" ({ntok} tokens) -> same class, same slots, inverse constants')
-    # regular polygons are converted first
+    # the vertex string of a pixel polygon, on concrete vertices: x+1,y+1 per vertex, in order, comma separated
     ser, wfi, meta_fn = ds9.writer_funcs(m)
+    gp = [f for f in m.modules[wfi.module].functions.values() if 'precision' in [a.arg for a in f.node.args.args]
+          and any(isinstance(n, ast.Attribute) and n.attr == '_params' for n in ast.walk(f.node))]
+    ctx.need(len(gp) == 1, 'ds9 write', 'parameter formatter not identified')
+    pcc = m.cls('PixCoord')
+    verts = Obj('PixCoord', {'x': Tup(tuple(sp.Integer(k) for k in (1, 2, 3)), 'array'),
+                             'y': Tup(tuple(sp.Integer(k) for k in (4, 5, 6)), 'array')}, None, pcc)
+    preg = Obj('PolygonPixelRegion', {'vertices': verts}, 'region', m.cls('PolygonPixelRegion'))
+    outp = Evaluator(m).run(gp[0], [preg, Tup((Const('polygon'), Const('{vertices}')))], {'precision': sp.Integer(2)})
+    got = render(outp.returns[0][1], {}) if len(outp.returns) == 1 else f'{len(outp.returns)} outcomes'
+    if got == '2.00,5.00,3.00,6.00,4.00,7.00':
+        ctx.ok('PolygonPixelRegion:vertex string', 'vertices (1,4),(2,5),(3,6) at precision 2 -> 2.00,5.00,3.00,6.00,4.00,7.00')
+    else:
+        ctx.bad('PolygonPixelRegion', 'vertex-string', f'vertices (1,4),(2,5),(3,6) at precision 2 are written `{got}`, not '
+                '`2.00,5.00,3.00,6.00,4.00,7.00`', gp[0].loc())
+    # regular polygons are converted first
     src = norm(ser.node)
     if 'RegularPolygonPixelRegion' in src and 'to_polygon()' in src:
         ctx.ok('RegularPolygonPixelRegion', 'serialised through to_polygon()')
@@ -583,11 +598,25 @@ def render(t, ph):
         return ph[t.path]
     if isinstance(t, App) and t.name == 'fstring':
         return ''.join(render(a, ph) for a in t.args)
+    if isinstance(t, App) and t.name == 'fmt' and len(t.args) == 2 and is_num(t.args[0]) and t.args[0].is_number:
+        return format(float(t.args[0]), render(t.args[1], ph))
     if isinstance(t, App) and t.name == 'fmt':
         return render(t.args[0], ph)
     if isinstance(t, App) and t.name == 'apply' and isinstance(t.args[0], App) and t.args[0].name == 'attr:join' \
             and isinstance(t.args[1], Tup):
         return render(t.args[0].args[0], ph).join(render(a, ph) for a in t.args[1].items)
+    if isinstance(t, App) and t.name == 'fmt' and len(t.args) == 2 and is_num(t.args[0]) and t.args[0].is_number:
+        return format(float(t.args[0]), render(t.args[1], ph))
+    if is_num(t) and t.is_number:
+        return str(int(t)) if t == int(t) else str(float(t))
+    if isinstance(t, App) and t.name == 'slice_of' and len(t.args) == 4:
+        def iv(x):
+            return None if (isinstance(x, Const) and x.v is None) else int(x)
+        return render(t.args[0], ph)[iv(t.args[1]):iv(t.args[2]):iv(t.args[3])]
+    if isinstance(t, App) and t.name == 'str.format' and isinstance(t.args[0], Const):
+        kw = {a.items[0].v: render(a.items[1], ph) for a in t.args[1:] if isinstance(a, Tup) and len(a.items) == 2
+              and isinstance(a.items[0], Const)}
+        return t.args[0].v.format(**kw)
     if isinstance(t, App) and t.name in ('str', 'call:str') and len(t.args) == 1:
         return render(t.args[0], ph)
     if isinstance(t, App) and t.name == 'apply' and isinstance(t.args[0], App) and t.args[0].name == 'attr:replace' \
@@ -894,7 +923,7 @@ class _SubCtx:
 
 
 RULES = [
-    RuleDef('R1', 'token-level writer∘reader round trip per class (names, slots, inverse constants)', r1, 21),
+    RuleDef('R1', 'token-level writer∘reader round trip per class (names, slots, inverse constants)', r1, 22),
     RuleDef('R2', 'reader lexers: whole-token float(), suffix table, pixel shift (shared with C10.R3/R3b)', r2, 6),
     RuleDef('R3', 'frame tables are mutually inverse', r3, 6),
     RuleDef('R4', 'skip discipline (stated belief / check-then-use)', r4, 8),
